@@ -4,9 +4,11 @@ package driver
 // generated struct types, service and scope bindings.
 
 import (
+	"crypto/sha256"
 	"encoding/json"
 	"fmt"
 	"reflect"
+	"sort"
 
 	frugal "github.com/Workiva/frugal/lib/go"
 	"github.com/apache/thrift/lib/go/thrift"
@@ -17,6 +19,7 @@ type ProgramInfo struct {
 	Index int
 	Model *idl.Program
 	Text  map[string]string // rendered IDL
+	Hash  string            // identifies the program text
 }
 
 type StructBinding struct {
@@ -84,7 +87,16 @@ func RegisterProgram(index int, modelJSON string, texts map[string]string) {
 	for len(Programs) <= index {
 		Programs = append(Programs, nil)
 	}
-	Programs[index] = &ProgramInfo{Index: index, Model: &p, Text: texts}
+	h := sha256.New()
+	var ks []string
+	for k := range texts {
+		ks = append(ks, k)
+	}
+	sort.Strings(ks)
+	for _, k := range ks {
+		h.Write([]byte(k + "\x00" + texts[k] + "\x00"))
+	}
+	Programs[index] = &ProgramInfo{Index: index, Model: &p, Text: texts, Hash: fmt.Sprintf("%x", h.Sum(nil)[:8])}
 }
 
 func findDecl(p *idl.Program, file int, name string) *idl.Decl {
